@@ -43,6 +43,21 @@ CHECKS = {
  "C09": ("tamper", "fault_enumeration", "fault injection into serialized snapshot packages with an 'error or identical content' oracle",
          "For each package content: every single-character deletion / substitution / insertion over a 110-symbol alphabet at every offset, every truncation point, structural edits with the old checksum (scalar +-1, enum flips, order swap / drop / duplicate / retype / append, version, every checksum nibble, dropped members), a re-checksummed package under an unsupported version, and sampled fault pairs; a restore may only succeed with exactly the original content.",
          "Contents are generated (all order types, both id formats, boundary values, history-reached levels); multi-fault combinations beyond pairs are not enumerated.", "4/C09"),
+ "C03": ("E1 (+E2)", "exploration", "controlled-schedule execution (baton scheduler on hooked shared-memory operations) + offline per-order linearizability check of the client-boundary history against an executable per-order model",
+         "Tens of thousands of (program, schedule) pairs per run: real threads, one shared-memory step at a time, rw / PCT / complete one-preemption sweeps; at quiescence aggregates must equal sums, and for every order id some ordering of the successful operations (consistent with real time) must be explained by the statement's per-order machine and end in the listed state; the same checker over free-running E2 executions.",
+         "Schedules are sampled (complete only for one-preemption schedules of the swept programs); E1 is sequentially consistent at hook granularity; through-the-level iceberg tranche = documented size.", "4/C03"),
+ "C08": ("E1 (+E2)", "exploration", "controlled-schedule execution + drain oracle at quiescence; exactly-once ledger over unique orders for the bare queue",
+         "After every scheduled execution a draining match must execute exactly what each listed order can still trade and leave nothing displayed; queue programs (push / pop / remove / find / pop+re-push) are checked with an exactly-once ledger after a final pop-until-empty; plus a 16-thread free-running hammer of the queue.",
+         "Schedules sampled; E1 treats each map / queue call as one step (E2 looks inside).", "4/C08"),
+ "C12": ("E1 (+E2)", "exploration", "stop-the-world range monitor: the scheduler reads the aggregates after every single shared-memory step",
+         "After EVERY step of every scheduled execution the three aggregates are read with the world stopped and compared with what calls that have started have submitted (bounds raised at the client boundary before the call); E2 adds polling readers against the program's total supply.",
+         "Granularity = hooked operations (the property's own); E2 polling can miss nanosecond transients.", "4/C12"),
+ "C13": ("E1 (+E2)", "exploration", "interval reasoning over the client-boundary history, with the hook event log used only to attribute known finding K4",
+         "Every not-found reply of a cancel / amend on an order that rested before the call and was not removed is a violation unless the failed lookup lies inside another thread's hold interval (K4); a successful cancel must never be followed by a trade, a second hand-out or a listing of that order.",
+         "Schedules sampled; attribution needs the hook event log (E1 only); E2 judges the 'successful cancel is final' half.", "4/C13"),
+ "C14": ("E1 (+E2)", "exploration", "controlled-schedule execution of concurrent next() calls + set / sequence comparison with a sequential generator",
+         "2-4 threads x 1-5 calls under the scheduler with the counter as a hooked atomic (a split read-modify-write gets a scheduling point between its halves); all ids distinct and equal to a sequential generator's set; 16 free-running threads x 60k calls.",
+         "Schedules sampled; namespaces nil / max / random.", "4/C14"),
  "C16": ("codec", "exploration", "round-trip monitor over boundary grids (enumerated) and seeded random values of every text codec type",
          "parse(to_string(v)) == v for every generated value of the 13 text codec types; boundary grids (64-bit edges, all variants, both id formats, empty / multi-element lists) are enumerated, the rest sampled.",
          "Equality via the Debug form of all fields; levels / queues by content; snapshot text by price + aggregates (as the statement says).", "4/C16"),
